@@ -115,6 +115,8 @@ func genC12(r *kernel.Rand) *kernel.Scenario {
 	}
 	if c["virtual"] > 0 && c["vsettle_gap_ms"] == 0 && r.Bool(0.2) {
 		c["vsettle_sendfail"] = int64(1 + r.Intn(2))
+	} else if c["virtual"] > 0 && r.Bool(0.15) {
+		c["vfund_sendfail"] = int64(1 + r.Intn(2))
 	}
 	n := r.Range(1, 6)
 	for i := 0; i < n; i++ {
@@ -152,11 +154,25 @@ func execC12(tt *testing.T, sc *kernel.Scenario, trace bool) *kernel.Result {
 		a := &c12adv{t: t, pendingOver: make(chan struct{})}
 		a.zWire = map[wallet.BackendID]wire.Address{channel.TestBackendID: func() *simwire.Address { x := simwire.NewAddress(); copy(x[:], "stranger-Z"); return x }()}
 		t.w.Bus.Name(a.zWire, "Z")
+		if f := sc.Cfg("vfund_sendfail", 0); f > 0 {
+			// a transient connection fault while an honest virtual channel is being
+			// funded: the hub's acceptance of one party's funding proposal is not sent
+			victim, done := []string{"A", "B"}[(f-1)&1], false
+			t.w.Bus.FailSend = func(from, to string, e *wire.Envelope) bool {
+				if _, ok := e.Msg.(*client.ChannelUpdateAccMsg); ok && from == "H" && to == victim && !done {
+					done = true
+					s.Count("fault.virtual_funding_acceptance_not_sent", 1)
+					return true
+				}
+				return false
+			}
+		}
 		for k := int64(0); k < sc.Cfg("virtual", 0); k++ {
 			if v, err := t.openVirtual(int(k), 20+3*k, 30-2*k); err == nil && a.virt == nil {
 				a.virt = v
 			}
 		}
+		t.w.Bus.FailSend = nil
 		// optionally H holds its machine lock on A-H with a pending own request:
 		// A's client answers that request only after a long reaction time
 		holdDone := make(chan struct{})
